@@ -103,7 +103,7 @@ func (e *Env) inState(st *State) *Env {
 	return &n
 }
 
-var smtSorts = map[string]bool{"Int": true, "Bool": true, "B": true, "NB": true, "Any": true, "Slc": true, "F64": true}
+var smtSorts = map[string]bool{"Ref": true, "Int": true, "Bool": true, "B": true, "NB": true, "Any": true, "Slc": true, "F64": true}
 
 // resolveType maps a type text of the contract language to (Go type, SMT sort).
 func (g *Gen) resolveType(text string) (types.Type, string) {
@@ -661,12 +661,24 @@ func (e *Env) call(x *CE, pos bool) CV {
 			fail("local(%s): no such local variable", args[0].Name)
 		}
 		v, live := e.st.cells[c]
+		et := c.Type().Underlying().(*types.Pointer).Elem()
 		if !live {
-			fail("local(%s) is not live at this return", args[0].Name)
+			// not assigned on this path: an arbitrary value (guard the clause with the path's condition)
+			return CV{g.s.decl("dead."+args[0].Name, g.sortOf(et)), et}
 		}
-		return CV{v, c.Type().Underlying().(*types.Pointer).Elem()}
+		return CV{v, et}
 	case "isbool":
 		return g.cv("((_ is ABool) "+argv(0).S+")", "Bool", nil)
+	case "isstr":
+		return g.cv("((_ is AStr) "+argv(0).S+")", "Bool", nil)
+	case "isbytes":
+		return g.cv("((_ is ABytes) "+argv(0).S+")", "Bool", nil)
+	case "isint64":
+		a := argv(0)
+		return g.cv(and("((_ is AInt) "+a.S+")", eq("(a.it "+a.S+")", g.tag(types.Typ[types.Int64]))), "Bool", nil)
+	case "isf64":
+		a := argv(0)
+		return g.cv(and("((_ is AFlt) "+a.S+")", eq("(a.ft "+a.S+")", g.tag(types.Typ[types.Float64]))), "Bool", nil)
 	case "pair":
 		kt, _ := g.resolveType("KVPair")
 		so := g.sortOf(kt)
@@ -874,13 +886,21 @@ func (e *Env) quant(x *CE, pos bool) CV {
 		e.want(r, "Bool", x.Args[0])
 		return r.S
 	}
+	// "Ref" binders range over object references (SMT Int); they are instantiated at the
+	// objects the code touches rather than at index terms
+	smtSort := func(so string) string {
+		if so == "Ref" {
+			return "Int"
+		}
+		return so
+	}
 	skolemNames := func() map[string]CV {
 		m := map[string]CV{}
 		for i, b := range x.Vars {
 			ty, so := g.resolveType(b.Sort)
 			n := fmt.Sprintf("QK.%s.%d", sanitize(so), e.qd+i)
-			g.s.declNamed(n, so)
-			m[b.Name] = CV{T{n, so}, ty}
+			g.s.declNamed(n, smtSort(so))
+			m[b.Name] = CV{T{n, smtSort(so)}, ty}
 		}
 		return m
 	}
@@ -892,7 +912,7 @@ func (e *Env) quant(x *CE, pos bool) CV {
 			m := map[string]CV{}
 			for _, b := range x.Vars {
 				ty, so := g.resolveType(b.Sort)
-				c := g.s.decl("sk."+b.Name, so)
+				c := g.s.decl("sk."+b.Name, smtSort(so))
 				m[b.Name] = CV{c, ty}
 				g.addInstTerm(so, c.S)
 			}
@@ -920,7 +940,7 @@ func (e *Env) quant(x *CE, pos bool) CV {
 				name := x.Vars[0].Name
 				outer := and(e.guards...)
 				ff := &forallFact{sort: so, guard: e.pc, outer: outer, inst: func(t string) string {
-					n := snap.with(map[string]CV{name: {T{t, so}, ty}})
+					n := snap.with(map[string]CV{name: {T{t, smtSort(so)}, ty}})
 					n.qd = snap.qd + 1
 					n.noReg = true
 					r := n.tr(x.Args[0], pos)
@@ -938,7 +958,7 @@ func (e *Env) quant(x *CE, pos bool) CV {
 		m := map[string]CV{}
 		for _, b := range x.Vars {
 			ty, so := g.resolveType(b.Sort)
-			m[b.Name] = CV{g.s.decl("ex."+b.Name, so), ty}
+			m[b.Name] = CV{g.s.decl("ex."+b.Name, smtSort(so)), ty}
 		}
 		return g.cv(body(m), "Bool", nil)
 	}
